@@ -46,6 +46,12 @@ var c16Probes = []string{
 	"如何甲法？\n    输出1 / 0\n输出（甲法）\n拦截异常：\n    输出“caught”",
 	"令探 = 1\n输出探",
 	"输出探",
+	// imports of different libraries / in a different order than an earlier program, then a
+	// method of the program's own that reads a top-level variable
+	"导入《@JSON》\n令税 = 25\n如何算？\n    输出税 * 2\n输出【（算），（生成JSON：【a=1】）】",
+	"导入《@文件》\n导入《@JSON》\n令税 = 26\n如何算？\n    输出税 * 2\n输出【（算），（生成JSON：【a=1】）】",
+	"令税 = 27\n如何算？\n    输出税 * 2\n如何再算？\n    输出（算） + 税\n输出（再算）",
+	"导入《@JSON》之生成JSON\n如何算？\n    输出（生成JSON：【b=2】）\n输出（算）",
 }
 
 // ---- polluters
@@ -63,6 +69,10 @@ func c16Polluters() []string {
 		"以“12”（转换数值）",
 		"令探 = 99\n如何探法？\n    输出探\n输出（探法）",
 		"导入《@JSON》\n导入《@文件》\n输出1",
+		"导入《@JSON》\n输出1",
+		"导入《@文件》\n输出1",
+		"导入《@文件》\n导入《@JSON》\n如何甲法？\n    输出1\n输出（甲法）",
+		"导入《@文件》之读取文件\n如何甲法？\n    输出1\n如何乙法？\n    输出2\n输出（乙法）",
 		"导入《@JSON》\n生成JSON = 1",
 		"如何一？\n    输出1 / 0\n如何二？\n    输出（一）\n如何三？\n    输出（二）\n输出（三）",
 		"如何一？\n    抛出异常：“x”！\n如何二？\n    输出（一）\n    拦截异常：\n        输出0\n输出（二）",
@@ -153,6 +163,8 @@ var c16Reqs = []c16Req{
 	{"g-json", "playground", "导入《@JSON》\n令甲 = （生成JSON：【a=1】）\n输出甲", ""},
 	{"h-error", "playground", "令甲 = 1\n输出甲 / 0", ""},
 	{"i-varinput", "playground", "输入甲\n输出甲 * 2", "甲 = 21"},
+	// the predefined random source (the value is random by design: it is not part of the answer)
+	{"n-random", "playground", "令甲 = （取随机数）\n令乙 = （取随机数）\n输出甲 >= 0 且 乙 < 1", ""},
 	{"j-file-1", "http", "令甲 = “file-one”\n输出甲", ""},
 	{"k-file-2", "http", "令甲 = “file-two”\n输出甲", ""},
 	// the request object of a bare request (no headers, no query): mutated in place / read
@@ -212,12 +224,16 @@ func c16Baselines() error {
 	if c16BaseProbes != nil {
 		return nil
 	}
-	out, err := mc.RunAux("C16", "probes")
-	if err != nil {
-		return err
-	}
-	if err := json.Unmarshal([]byte(out), &c16BaseProbes); err != nil {
-		return err
+	// every probe alone in its own fresh process: a probe's answer must not depend on what
+	// ran before it, the other probes included (a baseline taken from one process running the
+	// whole vector would hide pollution among the probes themselves)
+	for i := range c16Probes {
+		out, err := mc.RunAux("C16", fmt.Sprintf("probe:%d", i))
+		if err != nil {
+			c16BaseProbes = nil
+			return err
+		}
+		c16BaseProbes = append(c16BaseProbes, out)
 	}
 	c16BaseReqs = map[string]string{}
 	for _, rq := range c16Reqs {
@@ -375,6 +391,15 @@ func init() {
 			if arg == "probes" {
 				b, _ := json.Marshal(c16ProbeVector(nil))
 				return string(b)
+			}
+			if strings.HasPrefix(arg, "probe:") {
+				// ONE probe, alone, in this fresh process
+				var i int
+				fmt.Sscanf(strings.TrimPrefix(arg, "probe:"), "%d", &i)
+				if i >= 0 && i < len(c16Probes) {
+					return c16Exec(nil, c16Probes[i])
+				}
+				return ""
 			}
 			if strings.HasPrefix(arg, "req:") {
 				defer func() {
@@ -601,6 +626,23 @@ func c16Race() string {
 	}
 	for g := 0; g < 8; g++ {
 		<-done
+	}
+	// second phase: every request kind on its own, served by all goroutines at once, so that
+	// two executions of the SAME code path overlap for certain (a shared unsynchronised
+	// helper used by one kind of request only)
+	for _, rq := range c16Reqs {
+		rq := rq
+		for g := 0; g < 8; g++ {
+			go func() {
+				for i := 0; i < 40; i++ {
+					c16Serve(in, rq)
+				}
+				done <- true
+			}()
+		}
+		for g := 0; g < 8; g++ {
+			<-done
+		}
 	}
 	return "race pass finished"
 }
